@@ -145,8 +145,12 @@ func (anaHost) PostValidationHook(map[string]ast.AnalyzedProgram, string, *analy
 	return nil
 }
 func (h anaHost) ResolveCodeModule(n string) (string, bool, error) { c, ok := h.mods[n]; return c, ok, nil }
-func (anaHost) GetBuiltinImport(m, v string, s herrors.Span, k pAst.IMPORT_KIND) (analyzer.BuiltinImport, bool, bool) {
-	return analyzer.BuiltinImport{}, false, false
+func (h anaHost) GetBuiltinImport(m, v string, s herrors.Span, k pAst.IMPORT_KIND) (analyzer.BuiltinImport, bool, bool) {
+	if _, isCode := h.mods[m]; isCode {
+		return analyzer.BuiltinImport{}, false, false
+	}
+	// host-provided modules (triggers, templates, ...) come from the project's own testing host
+	return hms.TestingAnalyzerHost{}.GetBuiltinImport(m, v, s, k)
 }
 
 type rec struct {
